@@ -463,8 +463,10 @@ func (c *client) executeReadLoop(cborReader *cbor.Decoder) {
 	defer c.wg.Done()
 	// Loop and get all messages
 	// The message is generic, so we must find the type and decode the full message next.
-	var runtimeMessage DecodedRuntimeMessage
 	for {
+		// A fresh message for every iteration: the decoder leaves absent fields untouched, so a reused variable
+		// would attribute a message without run ID (e.g. an error that concerns all runs) to the previous one.
+		var runtimeMessage DecodedRuntimeMessage
 		if err := cborReader.Decode(&runtimeMessage); err != nil {
 			c.logger.Errorf(
 				"ATP client for steps '%s' failed to read or decode runtime message: %v",
